@@ -143,6 +143,30 @@ func init() {
 		}
 		return "ok " + toHex(buf.Bytes())
 	})
+	// object history for cert chains: Write, then the OCSP / SCT bytes of the SAME objects are overwritten in place with the blobs of the
+	// second spec (same lengths), then Write again: the second output is that of the second spec. args: <specA> <specB>
+	register("cert.write.inplace", func(args []string) string {
+		a, b := certurlChain(args[0]), certurlChain(args[1])
+		var first bytes.Buffer
+		if err := a.Write(&first); err != nil {
+			return "err-first"
+		}
+		if len(a) != len(b) {
+			panic("bad-op")
+		}
+		for i := range a {
+			if len(a[i].OCSPResponse) != len(b[i].OCSPResponse) || len(a[i].SCTList) != len(b[i].SCTList) || (a[i].OCSPResponse == nil) != (b[i].OCSPResponse == nil) || (a[i].SCTList == nil) != (b[i].SCTList == nil) {
+				panic("bad-op")
+			}
+			copy(a[i].OCSPResponse, b[i].OCSPResponse)
+			copy(a[i].SCTList, b[i].SCTList)
+		}
+		var second bytes.Buffer
+		if err := a.Write(&second); err != nil {
+			return "err"
+		}
+		return "ok " + toHex(second.Bytes())
+	})
 	// two MI decodes in ONE process, the second result is reported: nothing learnt from the first stream may help the second
 	register("mice.twice", func(args []string) string {
 		first := append([]string{}, args[:3]...)
